@@ -238,6 +238,16 @@ def check_super(t1, t2):
         return f"all_supertrees({G.tree_newick(t1)}, {G.tree_newick(t2)}) gives {len(g)} trees, expected {len(want)}", len(want)
     if (one is None) != (not want):
         return f"supertree = {one.write(format=9) if one else None} but {len(want)} compatible binary trees exist", len(want)
+    # the signature takes any iterable of trees: a generator and a map object must give the same answers as a list
+    try:
+        one_gen = supertree(ete(t) for t in (t1, t2))
+        all_map = all_supertrees(map(ete, (t1, t2)))
+    except Exception as exc:
+        return f"raised {type(exc).__name__}: {exc} on a one-shot iterable of trees", len(want)
+    if sorted(sorted(map(sorted, ete_clades(t))) for t in all_map) != want:
+        return f"all_supertrees(map object of {G.tree_newick(t1)}, {G.tree_newick(t2)}) gives {len(all_map)} trees, expected {len(want)}", len(want)
+    if (one_gen is None) != (one is None) or (one is not None and ete_clades(one_gen) != ete_clades(one)):
+        return f"supertree(generator) = {one_gen.write(format=9) if one_gen else None}, supertree(list) = {one.write(format=9) if one else None}", len(want)
     if one is not None:
         cl = ete_clades(one)
         if sorted(l.name for l in one.get_leaves()) != union:
